@@ -193,6 +193,88 @@ package autodiff
 //@   loop 3 decreases c.N - i
 //@ end
 
+// ---------------------------------------------------------------------------
+// state methods of the magic scalars (C06: Set copies the whole jet, SetFloat64/Reset clear it; C12: Clone)
+
+//@ for $R,$F,$T in (Real64,float64,@), (Real32,float32,+)
+//@ propsdefault C01$T C06$T C08$T C12$T C20$T
+//@ spec jetEq_$R(a *$R, b ConstScalar) bool =
+//@   a.Value == old(val(b)) && a.Order == old(order(b)) && a.N == old(nvars(b)) &&
+//@   (a.Order >= 1 ==> (forall i int :: 0 <= i && i < a.N ==> a.Derivative[i] == old(D(b, i)))) &&
+//@   (a.Order >= 2 ==> (forall i int, j int :: 0 <= i && i < a.N && 0 <= j && j < a.N ==> a.Hessian[i][j] == old(H(b, i, j))))
+
+//@ func (*$R).ResetDerivatives
+//@   requires RI_$R(a)
+//@   ensures RI_$R(a) && a.Value == old(a.Value) && a.N == old(a.N) && a.Order == old(a.Order)
+//@   ensures a.Order >= 1 ==> (forall i int :: 0 <= i && i < a.N ==> a.Derivative[i] == 0)
+//@   ensures a.Order >= 2 ==> (forall i int, j int :: 0 <= i && i < a.N && 0 <= j && j < a.N ==> a.Hessian[i][j] == 0)
+//@   modifies []$F@{q :: owns_$R(a, q)}
+//@   loop 1 invariant 0 <= i && i <= a.N && (forall k int :: 0 <= k && k < i ==> a.Derivative[k] == 0)
+//@   loop 1 invariant forall r int, k int :: !old(owns_$R(a, r)) ==> row($F, r)[k] == old(row($F, r)[k])
+//@   loop 1 decreases a.N - i
+//@   loop 2 invariant 0 <= i && i <= a.N && (forall k int :: 0 <= k && k < a.N ==> a.Derivative[k] == 0)
+//@   loop 2 invariant forall p int, q int :: 0 <= p && p < i && 0 <= q && q < a.N ==> a.Hessian[p][q] == 0
+//@   loop 2 invariant forall r int, k int :: !old(owns_$R(a, r)) ==> row($F, r)[k] == old(row($F, r)[k])
+//@   loop 2 decreases a.N - i
+//@   loop 3 invariant 0 <= i && i < a.N && 0 <= j && j <= a.N && (forall k int :: 0 <= k && k < a.N ==> a.Derivative[k] == 0)
+//@   loop 3 invariant forall p int, q int :: 0 <= p && p < i && 0 <= q && q < a.N ==> a.Hessian[p][q] == 0
+//@   loop 3 invariant forall q int :: 0 <= q && q < j ==> a.Hessian[i][q] == 0
+//@   loop 3 invariant forall r int, k int :: !old(owns_$R(a, r)) ==> row($F, r)[k] == old(row($F, r)[k])
+//@   loop 3 decreases a.N - j
+
+//@ func (*$R).Reset
+//@   requires RI_$R(a)
+//@   ensures RI_$R(a) && a.Value == 0 && a.N == old(a.N) && a.Order == old(a.Order)
+//@   ensures a.Order >= 1 ==> (forall i int :: 0 <= i && i < a.N ==> a.Derivative[i] == 0)
+//@   ensures a.Order >= 2 ==> (forall i int, j int :: 0 <= i && i < a.N && 0 <= j && j < a.N ==> a.Hessian[i][j] == 0)
+//@   modifies $R.Value@{a}, []$F@{q :: owns_$R(a, q)}
+
+//@ func (*$R).SetFloat64
+//@   requires RI_$R(a)
+//@   ensures RI_$R(a) && a.Value == v && a.N == old(a.N) && a.Order == old(a.Order)
+//@   ensures a.Order >= 1 ==> (forall i int :: 0 <= i && i < a.N ==> a.Derivative[i] == 0)
+//@   ensures a.Order >= 2 ==> (forall i int, j int :: 0 <= i && i < a.N && 0 <= j && j < a.N ==> a.Hessian[i][j] == 0)
+//@   modifies $R.Value@{a}, []$F@{q :: owns_$R(a, q)}
+
+//@ func (*$R).Set [also: (*$R).SET]
+//@   requires RI_$R(a) && RIc(b) && sep_$R(a, b)
+//@   ensures RI_$R(a) && jetEq_$R(a, b)
+//@   modifies $R.Value@{a}, $R.N@{a}, $R.Order@{a}, $R.Derivative@{a}, $R.Hessian@{a}, []$F@{q :: owns_$R(a, q)}
+//@   loop 1 invariant 0 <= i && i <= a.N && RI_$R(a) && a.Value == old(val(b)) && a.Order == old(order(b)) && a.N == old(nvars(b)) && a.Order >= 1 && nvars(b) == old(nvars(b)) && order(b) == old(order(b))
+//@   loop 1 invariant forall k int :: 0 <= k && k < i ==> a.Derivative[k] == old(D(b, k))
+//@   loop 1 invariant forall k int :: 0 <= k && k < a.N ==> D(b, k) == old(D(b, k))
+//@   loop 1 invariant forall p int, q int :: 0 <= p && p < a.N && 0 <= q && q < a.N ==> H(b, p, q) == old(H(b, p, q))
+//@   loop 1 invariant forall r int, k int :: r < old(alloc) && !old(owns_$R(a, r)) ==> row($F, r)[k] == old(row($F, r)[k])
+//@   loop 1 decreases a.N - i
+//@   loop 2 invariant 0 <= i && i <= a.N && RI_$R(a) && a.Value == old(val(b)) && a.Order == old(order(b)) && a.N == old(nvars(b)) && a.Order >= 2 && nvars(b) == old(nvars(b)) && order(b) == old(order(b))
+//@   loop 2 invariant forall k int :: 0 <= k && k < a.N ==> a.Derivative[k] == old(D(b, k))
+//@   loop 2 invariant forall p int, q int :: 0 <= p && p < i && 0 <= q && q < a.N ==> a.Hessian[p][q] == old(H(b, p, q))
+//@   loop 2 invariant forall p int, q int :: 0 <= p && p < a.N && 0 <= q && q < a.N ==> H(b, p, q) == old(H(b, p, q))
+//@   loop 2 invariant forall r int, k int :: r < old(alloc) && !old(owns_$R(a, r)) ==> row($F, r)[k] == old(row($F, r)[k])
+//@   loop 2 decreases a.N - i
+//@   loop 3 invariant 0 <= i && i < a.N && 0 <= j && j <= a.N && RI_$R(a) && a.Value == old(val(b)) && a.Order == old(order(b)) && a.N == old(nvars(b)) && a.Order >= 2 && nvars(b) == old(nvars(b)) && order(b) == old(order(b))
+//@   loop 3 invariant forall k int :: 0 <= k && k < a.N ==> a.Derivative[k] == old(D(b, k))
+//@   loop 3 invariant forall p int, q int :: 0 <= p && p < i && 0 <= q && q < a.N ==> a.Hessian[p][q] == old(H(b, p, q))
+//@   loop 3 invariant forall q int :: 0 <= q && q < j ==> a.Hessian[i][q] == old(H(b, i, q))
+//@   loop 3 invariant forall p int, q int :: 0 <= p && p < a.N && 0 <= q && q < a.N ==> H(b, p, q) == old(H(b, p, q))
+//@   loop 3 invariant forall r int, k int :: r < old(alloc) && !old(owns_$R(a, r)) ==> row($F, r)[k] == old(row($F, r)[k])
+//@   loop 3 decreases a.N - j
+
+//@ func (*$R).Clone [also: (*$R).CloneScalar, (*$R).CloneConstScalar, (*$R).CloneMagicScalar]
+//@   requires RI_$R(a)
+//@   ensures isa(*$R, result) && fresh(as(*$R, result)) && RI_$R(as(*$R, result)) && jetEq_$R(as(*$R, result), a)
+//@   modifies nothing
+
+//@ func (*$R).SetVariable
+//@   requires RI_$R(a) && 0 <= i && i < n
+//@   errors_when order > 2 || order < 0
+//@   ensures (order > 2 || order < 0) ==> a.N == old(a.N) && a.Order == old(a.Order) && a.Derivative == old(a.Derivative) && a.Hessian == old(a.Hessian)
+//@   ensures order <= 2 && order >= 0 ==> RI_$R(a) && a.N == n && a.Order == order && a.Value == old(a.Value) && (order >= 1 ==> a.Derivative[i] == 1)
+//@   ensures @seed order <= 2 && order >= 1 && !(old(a.N) == n && old(a.Order) == order) ==> (forall k int :: 0 <= k && k < n && k != i ==> a.Derivative[k] == 0) &&
+//@        (order >= 2 ==> (forall p int, q int :: 0 <= p && p < n && 0 <= q && q < n ==> a.Hessian[p][q] == 0))
+//@   modifies $R.N@{a}, $R.Order@{a}, $R.Derivative@{a}, $R.Hessian@{a}, []$F@{q :: owns_$R(a, q)}
+//@ end
+
 // lazy variants (derived from the eager contracts by gen_scalar_contracts.py)
 //@ for $R,$F,$T in (Real64,float64,@), (Real32,float32,+)
 //@ propsdefault C01$T C08$T
